@@ -426,14 +426,15 @@ def handle (ds : DriverState) (line : String) : IO (String × DriverState) := do
       -- stored macro-expanded): Lean source, one `name<TAB>params<TAB>rest<TAB>body` record per definition, records separated by ` ;; `
       match ds.session with
       | some sess =>
-        let defs := match sess.st.modules.find? (·.name == cs!"prelude") with
+        let modName := (args.head?.getD "prelude").toList
+        let defs := match sess.st.modules.find? (·.name == modName) with
           | some m => m.defs
           | none   => []
         let recs := defs.filterMap fun (name, w) =>
-          if Prelude.table.any (·.1 == name) then none else
+          if modName == cs!"prelude" && Prelude.table.any (·.1 == name) then none else
           match w.get with
           | .fn k r p b .nil m =>
-            if m == cs!"prelude" then some (String.ofList name ++ "\t" ++ (if k == .lambda then "lambda" else "macro") ++ "\t" ++ leanTerm p ++ "\t" ++ leanTerm r ++ "\t" ++ leanTerm b) else none
+            if m == modName then some (String.ofList name ++ "\t" ++ (if k == .lambda then "lambda" else "macro") ++ "\t" ++ leanTerm p ++ "\t" ++ leanTerm r ++ "\t" ++ leanTerm b) else none
           | _ => none
         return (" ;; ".intercalate recs, ds)
       | none => return ("driver-error no session", ds)
